@@ -222,4 +222,4 @@ impl<DID> Debug for DiseaseIterator<'_, DID> {
 
 #[cfg(kani)]
 #[path = "/verif/kani/disease.rs"]
-mod verif_kani;
+pub(crate) mod verif_kani;
